@@ -308,8 +308,15 @@ pub fn param_ok(reg: Reg, mb: u64, param: &str, row: &Row, allow_blank: bool) ->
     }
 }
 
-fn field<'a>(row: &'a Row, name: &str) -> String {
-    row.fields().into_iter().find(|(k, _)| *k == name).map(|(_, v)| v).unwrap_or_default()
+/// all fields of a row rendered once (Row::fields allocates ~50 strings)
+pub struct Rendered(pub Vec<(&'static str, String)>);
+impl Rendered {
+    pub fn of(row: &Row) -> Rendered {
+        Rendered(row.fields())
+    }
+    pub fn get(&self, name: &str) -> &str {
+        self.0.iter().find(|(k, _)| *k == name).map(|(_, v)| v.as_str()).unwrap_or("")
+    }
 }
 
 /// gating knowledge accumulated along a history
@@ -417,7 +424,11 @@ pub fn required_register(mb: u64) -> Option<Reg> {
 
 /// Judge one DF20/21 frame applied to an existing row. Returns Err((class, message, expectations)).
 pub fn judge_commb(opts: &Opts, gate: &Gate, mb: u64, before: &Row, after: &Row) -> Result<Option<Reg>, (String, String, Vec<String>)> {
-    let changed: Vec<&str> = PARAMS.iter().copied().filter(|p| field(before, p) != field(after, p)).collect();
+    let (rb, ra) = (Rendered::of(before), Rendered::of(after));
+    let field = |which: &Row, name: &str| -> String {
+        if std::ptr::eq(which, before) { rb.get(name).to_string() } else { ra.get(name).to_string() }
+    };
+    let changed: Vec<&str> = PARAMS.iter().copied().filter(|p| rb.get(p) != ra.get(p)).collect();
     let addr = before.icao;
     // ---- "only if"
     if !changed.is_empty() {
@@ -543,7 +554,11 @@ fn judge_history(rep: &mut Report, opts: &Opts, h: &History, frs: &[Fr], o: &His
                 let key = format!("{}|{}", opts.describe(), h.steps[..=k].iter().map(|s| s.lines[0].as_str()).collect::<Vec<_>>().join(","));
                 let req = required_register(*mb);
                 let res = judge_commb(opts, &gate, *mb, before, after);
-                let changed_any = PARAMS.iter().any(|p| field(before, p) != field(after, p));
+                let (rb, ra) = (Rendered::of(before), Rendered::of(after));
+                let field = |which: &Row, name: &str| -> String {
+                    if std::ptr::eq(which, before) { rb.get(name).to_string() } else { ra.get(name).to_string() }
+                };
+                let changed_any = PARAMS.iter().any(|p| rb.get(p) != ra.get(p));
                 // non-trivial: a decode was required (ignoring the frame fails) or the MB field is register-shaped
                 // while gating is closed / the register invalid (applying it fails)
                 let nontrivial = matches!(res, Ok(Some(_))) || (!weak_candidates(*mb).is_empty()) || changed_any;
